@@ -125,7 +125,10 @@ P(kind, x, parent) ==
          IF ~KeysOK(x, {"entries", f}, {"name"}) THEN Bad ELSE
          LET e == PEnt(x.v["entries"]) v == PNum(x.v[f]) nm == PName(x.v, "name")
              d == LeafD(kind, Own(nm.v, parent)) IN
-         R(StAll(<<e.st, v.st, nm.st>>), d,
+         (* the mean of an aggregator without entries is not content: the library keeps a number written there in    *)
+         (* some positions and recomputes it (NaN) in others - nothing is claimed about such a document              *)
+         R(StAll(<<e.st, v.st, nm.st,
+                   IF kind = "Average" /\ e.st = "valid" /\ v.st = "valid" /\ e.v = Q(0) /\ ~IsNaN(v.v) THEN "unspec" ELSE "valid">>), d,
            CASE kind = "Sum" -> [k |-> kind, e |-> e.v, s |-> v.v, nm |-> d.nm]
              [] kind = "Average" -> [k |-> kind, e |-> e.v, mean |-> v.v, nm |-> d.nm]
              [] kind = "Minimize" -> [k |-> kind, e |-> e.v, min |-> v.v, nm |-> d.nm]
@@ -134,7 +137,9 @@ P(kind, x, parent) ==
          IF ~KeysOK(x, {"entries", "mean", "variance"}, {"name"}) THEN Bad ELSE
          LET e == PEnt(x.v["entries"]) m == PNum(x.v["mean"]) v == PNum(x.v["variance"]) nm == PName(x.v, "name")
              d == LeafD(kind, Own(nm.v, parent)) IN
-         R(StAll(<<e.st, m.st, v.st, nm.st>>), d,
+         R(StAll(<<e.st, m.st, v.st, nm.st,
+                   IF e.st = "valid" /\ m.st = "valid" /\ v.st = "valid" /\ e.v = Q(0) /\ (~IsNaN(m.v) \/ ~IsNaN(v.v))
+                   THEN "unspec" ELSE "valid">>), d,     \* (the moments of an empty aggregator: as for Average)
            [k |-> kind, e |-> e.v, mean |-> m.v, vte |-> Mul(v.v, e.v), nm |-> d.nm])
     [] kind = "Bag" -> PBag(x, parent)
     [] kind = "Bin" ->
